@@ -49,6 +49,16 @@ pub const UNBOUNDED_LIMIT: usize = 64;
 
 impl Iterator for XsIter {
     type Item = i64;
+    /// exact, like the iterators of std collections (code that looks at the hint must not be
+    /// able to change what the sink sees)
+    fn size_hint(&self) -> (usize, Option<usize>) {
+        if self.unbounded {
+            (usize::MAX, None)
+        } else {
+            let left = self.data.len().saturating_sub(self.pos);
+            (left, Some(left))
+        }
+    }
     fn next(&mut self) -> Option<i64> {
         call(CALL_NEXT, self.pos as i64);
         if self.unbounded {
